@@ -20,6 +20,16 @@ Definition model (c : case) : list Z :=
   | 8%N => [semigroup_From_Combine (bop (code c)) x y]
   | 11%N => [b2z (eq_ContraMap_Equal (proj (code c)) (eq_From_Equal (fun p q => Z.eqb p (q + code c))) x y)]
   | 12%N => [ord_ContraMap_Compare (proj (code c)) (ord_From_Compare (fun p q => ord_ord_Compare Z.ltb p (q + code c))) x y]
+  | 13%N => [ord_From_Compare (fun p q => p - q + code c) x y]
+  | 14%N => [ord_ContraMap_Compare (proj (code c)) (ord_From_Compare (fun p q => p - q + code c)) x y]
+  | 15%N => (* even cases go through monoid.From over semigroup.From, odd ones through monoid.FromOp: both are tried
+               here, the two must agree (they are the same pair in the generated definitions) *)
+            let m := monoid_From (sempty c) (semigroup_From_Combine (@app Z)) in
+            let m' := monoid_FromOp (sempty c) (@app Z) in
+            let r (em : list Z) (f : list Z -> list Z -> list Z) := lenc em ++ lenc (f (a c) (b c)) ++ lenc (f (b c) (a c)) ++ lenc (f em (a c)) in
+            let r1 := r (monoid_monoid_Empty (snd m)) (fst m) in
+            let r2 := r (monoid_monoid_Empty (snd m')) (semigroup_From_Combine (fst m')) in
+            if lz_eqb r1 r2 then r1 else []
   | 9%N => let m := monoid_From (e c) (semigroup_From_Combine (bop (code c))) in
            [monoid_monoid_Empty (snd m); fst m x y; fst m y x]
   | _ => let m := monoid_FromOp (e c) (bop (code c)) in
